@@ -45,7 +45,7 @@ def template(rnd, cg, lits, gname=None):
         return pick(rnd, pool)
 
     kinds = ["forall_eq", "forall_neq", "forall_len", "exists_eq", "count_lit", "count_numq", "struct2", "mexpr_children",
-             "bool_combo", "exists_len", "prefix", "random", "random", "nested_in", "implication"]
+             "bool_combo", "exists_len", "prefix", "random", "random", "nested_in", "nested_in_smt", "implication"]
     if num:
         kinds += ["toint", "toint", "toint_arith", "toint_pair"]
     if gname in ("lang", "blk"):
@@ -107,6 +107,19 @@ def template(rnd, cg, lits, gname=None):
         if chance(rnd, 0.4):
             body = ["and", body, _eq("v2", some_lit(U))]
         return k, [q1, T, "v1", "start", None, [q2, U, "v2", "start", None, body]]
+    if k == "nested_in_smt":
+        # an existential below a universal whose body also constrains the *in*-variable by an SMT atom
+        inn = [x for x in inner if R[x]]
+        if inn:
+            T = pick(rnd, inn)
+            U = pick(rnd, sorted(R[T]))
+            outer_atom = ["smt", [pick(rnd, [">", ">=", "<="]), ["str.len", ["var", "v1"]], ["int", rnd.randint(1, 7)]]]
+            if chance(rnd, 0.3):
+                s_ = some_lit(T)
+                outer_atom = ["smt", ["str.contains", ["var", "v1"], ["str", s_[:1] or "a"]]]
+            return k, [pick(rnd, ["forall", "forall", "exists"]), T, "v1", "start", None,
+                       ["exists", U, "v2", "v1", None, ["and", _eq("v2", some_lit(U)), outer_atom]]]
+        k = "nested_in"
     if k == "nested_in":
         inn = [x for x in inner if R[x]]
         if inn:
